@@ -333,7 +333,7 @@ def main():
             "guard": "--cfg honeycomb_verif",
             "enable": "RUSTFLAGS=--cfg honeycomb_verif via /verif/harness*/.cargo/config.toml",
             "baseline_off_cmd": BASE,
-            "source_commits": ["2c3a5c4", "dbd85ff", "1a6fc02"],
+            "source_commits": ["2c3a5c4", "dbd85ff", "1a6fc02", "5e09671"],
             "add_only": True,
         },
         "engines": [{
